@@ -3,7 +3,7 @@
    position, carry the same index and agree on the columns the expression mentions. *)
 From Coq Require Import List String NArith ZArith Bool Lia Arith.
 From PDT Require Import Base.StableSort Model.Dtype Model.Value Model.Ops Model.Expr Model.RefSem Model.SqlCompile
-     Proofs.EvalLemmas Proofs.SqlCompileLemmas.
+     Proofs.EvalLemmas Proofs.ListRel.
 From PDTGen Require Import Catalogue.
 Import ListNotations.
 Open Scope nat_scope.
@@ -213,4 +213,83 @@ Proof.
       * intros r r' [E _]. exact E.
       * destruct hp; [|exact F]. apply Forall2_filter; [exact F|]. intros r r' Hr.
         rewrite (Epart r r' Hr), (Epart cur cur' C). reflexivity.
+Qed.
+
+(* ---------- inlining of definitions (what compile_col_expr does with sqa_expr) ----------
+   [b] is a FROM row, [r] the reference row at the same position; every column the expression mentions
+   has, as the value of its inlined definition at [b] (evaluated in the FROM context), the value the
+   reference row holds.  Then the inlined expression in the FROM context has the value of the original
+   expression in the reference context - for EVERY expression form, window functions included. *)
+Definition srel (ds : sdefs) (ctxB : list irow) (X : list uid) (b r : irow) : Prop :=
+  fst b = fst r /\ forall x, In x X -> eval ctxB b (def_of ds x) = get (snd r) x.
+
+Lemma srel_incl ds ctxB X Y b r : (forall x, In x Y -> In x X) -> srel ds ctxB X b r -> srel ds ctxB Y b r.
+Proof. intros H [E G]. split; [exact E|]. intros x Hx. apply G. apply H. exact Hx. Qed.
+Lemma Forall2_srel_incl ds ctxB X Y l l' :
+  (forall x, In x Y -> In x X) -> Forall2 (srel ds ctxB X) l l' -> Forall2 (srel ds ctxB Y) l l'.
+Proof. intros H. apply Forall2_impl'. intros a b. apply srel_incl. exact H. Qed.
+
+Lemma win_core_map_args (f : expr -> expr) o args ms keys (ev : irow -> expr -> value) cur P :
+  win_core o (map f args) ms keys ev cur P = win_core o args ms keys (fun r a => ev r (f a)) cur P.
+Proof.
+  unfold win_core. destruct (op_kind o); [reflexivity| |].
+  - destruct args; reflexivity.
+  - destruct (_ && _); [reflexivity|]. destruct o; try reflexivity.
+    + destruct args as [|x [|n [|fl rest]]]; reflexivity.
+    + destruct args; reflexivity.
+Qed.
+
+Theorem subst_rel : forall e ds ctxB ctxR curB curR,
+  Forall2 (srel ds ctxB (cols e)) ctxB ctxR -> srel ds ctxB (cols e) curB curR ->
+  eval ctxB curB (subst ds e) = eval ctxR curR e.
+Proof.
+  apply (expr_ind2 (fun e => forall ds ctxB ctxR curB curR,
+    Forall2 (srel ds ctxB (cols e)) ctxB ctxR -> srel ds ctxB (cols e) curB curR ->
+    eval ctxB curB (subst ds e) = eval ctxR curR e)).
+  - intros u ds ctxB ctxR curB curR _ [_ H]. cbn [subst]. simpl. apply H. left. reflexivity.
+  - reflexivity.
+  - intros e t IH ds ctxB ctxR curB curR F C. cbn [subst]. simpl in *. rewrite (IH ds ctxB ctxR curB curR F C). reflexivity.
+  - intros cs d IHcs IHd ds ctxB ctxR curB curR F C. cbn [subst]. rewrite !eval_case.
+    induction cs as [|[c v] cs IH]; simpl.
+    + destruct d as [x|]; [|reflexivity]. apply IHd; simpl in F, C; assumption.
+    + inversion IHcs as [|? ? [Hc Hv] Hrest]; subst. simpl in Hc, Hv.
+      rewrite (Hc ds ctxB ctxR curB curR)
+        by (first [eapply Forall2_srel_incl; [|exact F]; intros x Hx; apply cols_case_c; exact Hx
+                  |eapply srel_incl; [|exact C]; intros x Hx; apply cols_case_c; exact Hx]).
+      rewrite (Hv ds ctxB ctxR curB curR)
+        by (first [eapply Forall2_srel_incl; [|exact F]; intros x Hx; apply cols_case_v; exact Hx
+                  |eapply srel_incl; [|exact C]; intros x Hx; apply cols_case_v; exact Hx]).
+      rewrite (IH Hrest); [reflexivity| |].
+      * eapply Forall2_srel_incl; [|exact F]. intros x Hx. apply cols_case_rest. exact Hx.
+      * eapply srel_incl; [|exact C]. intros x Hx. apply cols_case_rest. exact Hx.
+  - intros o args hp part arr IHa IHp IHr ds ctxB ctxR curB curR F C.
+    set (X := cols (EFn o args hp part arr)) in *.
+    assert (Eargs : forall b r a, srel ds ctxB X b r -> In a args -> eval ctxB b (subst ds a) = eval ctxR r a).
+    { intros b r a Hr Ha. rewrite Forall_forall in IHa. apply (IHa a Ha).
+      - eapply Forall2_srel_incl; [|exact F]. intros x Hx. apply cols_fn_args. apply (in_flat_map_cols args a x Ha Hx).
+      - eapply srel_incl; [|exact Hr]. intros x Hx. apply cols_fn_args. apply (in_flat_map_cols args a x Ha Hx). }
+    assert (Epart : forall b r, srel ds ctxB X b r -> evs_fix ctxB b (map (subst ds) part) = evs_fix ctxR r part).
+    { intros b r Hr. unfold evs_fix. rewrite !evs_map, map_map. apply map_ext_in. intros a Ha.
+      rewrite Forall_forall in IHp. apply (IHp a Ha).
+      - eapply Forall2_srel_incl; [|exact F]. intros x Hx. apply cols_fn_part. apply (in_flat_map_cols part a x Ha Hx).
+      - eapply srel_incl; [|exact Hr]. intros x Hx. apply cols_fn_part. apply (in_flat_map_cols part a x Ha Hx). }
+    assert (Ekeys : forall b r, srel ds ctxB X b r ->
+                    keys_fix ctxB (map (fun ka => (subst ds (fst ka), snd ka)) arr) b = keys_fix ctxR arr r).
+    { intros b r Hr. unfold keys_fix. rewrite !keys_map, map_map. apply map_ext_in. intros [a m] Ha. simpl.
+      rewrite Forall_forall in IHr. apply (IHr (a, m) Ha).
+      - eapply Forall2_srel_incl; [|exact F]. intros x Hx. apply cols_fn_arr. apply in_flat_map. exists (a, m). split; [exact Ha|exact Hx].
+      - eapply srel_incl; [|exact Hr]. intros x Hx. apply cols_fn_arr. apply in_flat_map. exists (a, m). split; [exact Ha|exact Hx]. }
+    cbn [subst].
+    destruct (op_kind o) eqn:K.
+    + rewrite !eval_elem_fn by exact K. f_equal. rewrite map_map. apply map_ext_in. intros a Ha. apply Eargs; assumption.
+    + rewrite !eval_win_fn by (rewrite K; discriminate). rewrite win_core_map_args, map_map. cbn [snd].
+      apply (win_core_rel o args (map snd arr) _ _ _ _ curB curR _ _ (srel ds ctxB X)); try assumption.
+      * intros r r' [E _]. exact E.
+      * destruct hp; [|exact F]. apply Forall2_filter; [exact F|]. intros r r' Hr.
+        rewrite (Epart r r' Hr), (Epart curB curR C). reflexivity.
+    + rewrite !eval_win_fn by (rewrite K; discriminate). rewrite win_core_map_args, map_map. cbn [snd].
+      apply (win_core_rel o args (map snd arr) _ _ _ _ curB curR _ _ (srel ds ctxB X)); try assumption.
+      * intros r r' [E _]. exact E.
+      * destruct hp; [|exact F]. apply Forall2_filter; [exact F|]. intros r r' Hr.
+        rewrite (Epart r r' Hr), (Epart curB curR C). reflexivity.
 Qed.
